@@ -45,14 +45,14 @@ RenderCase(c) ==
         sib == IF c.place = "workspace" THEN Rendered([k \in 1..Len(c.fmts) |-> FmtDir(c.fmts[k])]).lines ELSE <<>>
     IN [ fam |-> c.fam, opts |-> c.opts, place |-> c.place, lines |-> r.lines, firsts |-> r.firsts, pmap |-> r.pmap, abs |-> r.abs,
          sibling |-> sib, widest |-> Widest(es), mincolumn |-> c.opts.indent + Widest(es) + 2,
-         formats |-> { [sym |-> Commodities[Formats[c.fmts[k]].comm].sym, places |-> Formats[c.fmts[k]].places, txt |-> Formats[c.fmts[k]].txt] : k \in 1..Len(c.fmts) } ]
+         formats |-> { [sym |-> CommoditiesX[Formats[c.fmts[k]].comm].sym, places |-> Formats[c.fmts[k]].places, txt |-> Formats[c.fmts[k]].txt] : k \in 1..Len(c.fmts) } ]
 
 (* ---- families -------------------------------------------------------------------------------- *)
 DecValues == { <<125, 3>>, <<1050, 2>>, <<5, 1>>, <<7, 8>>, <<123, 12>>, <<12345678, 4>>, <<1234567, 0>>, <<123456789, 2>>, <<99999, 5>>, <<15, 1>>, <<999, 3>>, <<5, 0>>, <<12345, 3>>, <<1012345, 3>> }
 
 DecTx(f, v, neg, side) ==
     LET c == Formats[f].comm
-        k == Commodities[c].k
+        k == CommoditiesX[c].k
         a == [neg |-> neg, m |-> v[1], sc |-> v[2], n |-> "exp", comm |-> c, side |-> side, sp |-> (side = "R" \/ k # "symbol"), sgn |-> "before", plus |-> FALSE]
         b == [a EXCEPT !.n = IF NotationOK(v[1], v[2], "point") THEN "point" ELSE "exp"]
     IN Tx(D(2024, 1, 15), Text(1), << [Post(3, <<b>>) EXCEPT !.cost = <<[total |-> FALSE, a |-> [a EXCEPT !.neg = FALSE]]>>],
